@@ -25,107 +25,166 @@ from gverif.harness import Run
 from gverif.props import c11_lib as L
 
 
-def run_tlc(cfg: str, max_edits: int, family: str, catch: bool, emit=True, workers=4, dump_trace=False, timeout=2400):
+def run_tlc(cfg: str, max_edits: int, family: str, catch: bool, emit=True, workers=4, dump_trace=False, timeout=2400, store=None):
     consts = {"MAXEDITS": max_edits, "FAMILY": family, "CATCHCYCLIC": "TRUE" if catch else "FALSE", "EMIT": "TRUE" if emit else "FALSE"}
-    return tlc.run("DiffTree", cfg, workers=workers, constants=consts, dump_trace=dump_trace, timeout=timeout, heap="3g")
+    return tlc.run("DiffTree", cfg, workers=workers, constants=consts, dump_trace=dump_trace, timeout=timeout, heap="3g", on_line=store.add if store is not None else None)
 
 
-def case_key(c: dict) -> str:
-    return json.dumps([c["mpriv"], c["old"], c["log"]], sort_keys=True)
+class Store:
+    """Compact store of TLC's CASE records, grouped by base package (mpriv, old): the full records of a
+    thorough run do not fit comfortably in memory as dicts, so each state is kept as a JSON string without
+    the fields shared by its group (old, okpaths) and the parsed dict is emptied."""
+
+    def __init__(self):
+        self.groups: dict = {}   # group key -> {"mpriv", "old", "okpaths", "cases": {log key: json string}}
+
+    def add(self, rec: dict):
+        gk = json.dumps([rec["mpriv"], rec["old"]], sort_keys=True)
+        g = self.groups.get(gk)
+        if g is None:
+            g = self.groups[gk] = {"mpriv": rec["mpriv"], "old": rec["old"], "okpaths": rec["okpaths"], "cases": {}}
+        lk = json.dumps(rec["log"])
+        if lk not in g["cases"]:
+            g["cases"][lk] = json.dumps({k: rec[k] for k in ("new", "log", "aborted", "out", "exit", "oblig", "allcompat")})
+        rec.clear()
+
+    def merge(self, other: "Store"):
+        for gk, g in other.groups.items():
+            mine = self.groups.setdefault(gk, g)
+            if mine is not g:
+                for lk, raw in g["cases"].items():
+                    mine["cases"].setdefault(lk, raw)
+
+    def __len__(self):
+        return sum(len(g["cases"]) for g in self.groups.values())
+
+
+def expand(g: dict, raw: str) -> dict:
+    c = json.loads(raw)
+    c.update(mpriv=g["mpriv"], old=g["old"], okpaths=g["okpaths"])
+    return c
 
 
 _G: dict = {}
+STRATA = ("reported-one", "reported", "silent", "dangling", "aborted")
 
 
-def _judge_group(cases: list):
-    """Worker: all cases share (mpriv, old). Returns aggregated verdicts."""
+def stratum(c: dict, real, aborted: str):
+    if aborted != "no":
+        return "aborted"
+    if c["old"]["ext"] and c["old"]["hasRall"] and c["log"]:
+        return "dangling"
+    if len(real) == 1:
+        return "reported-one"
+    if real:
+        return "reported"
+    if c["log"]:
+        return "silent"
+    return None
+
+
+CHUNK = 1200
+
+
+def _judge_group(item):
+    """Worker: a chunk of the states of one base package (mpriv, old). Returns aggregated verdicts."""
+    gi, lo = item
     griffe = _G["griffe"]
+    g = _G["groups"][gi]
     styles = list(griffe.ExplanationStyle)
     agg: dict = {}
-    stats = {"cases": 0, "drift": 0, "drift_ex": None, "breakages": 0, "explains": 0, "aborted": 0}
-    real_of = {}
+    stats = {"cases": 0, "drift": 0, "drift_ex": None, "breakages": 0, "explains": 0, "aborted": 0, "nontrivial": 0, "ops": {}}
+    cli_cand: dict = {k: [] for k in STRATA}
+    samples = []
+    mpriv = g["mpriv"]
     with scratch("c11-") as d:
-        mpriv = cases[0]["mpriv"]
-        old_pkg = L.load_version(griffe, os.path.join(d, "old"), cases[0]["old"], mpriv)
+        old_pkg = L.load_version(griffe, os.path.join(d, "old"), g["old"], mpriv)
         cache: dict = {}
-        for i, c in enumerate(cases):
+        for raw in _G["raws"][gi][lo : lo + CHUNK]:     # sorted by `new`: equal versions are adjacent
+            c = expand(g, raw)
             vkey = json.dumps(c["new"], sort_keys=True)
             if vkey not in cache:
-                cache[vkey] = L.load_version(griffe, os.path.join(d, f"n{len(cache)}"), c["new"], mpriv)
+                if len(cache) >= 256:     # bound the number of loaded packages kept alive
+                    cache.clear()
+                cache[vkey] = L.load_version(griffe, os.path.join(d, f"n{stats['cases']}"), c["new"], mpriv)
             real, aborted, bad = L.real_report(griffe, old_pkg, cache[vkey], mpriv, styles)
             stats["cases"] += 1
             stats["breakages"] += len(real)
             stats["explains"] += len(real) * len(styles)
             stats["aborted"] += aborted != "no"
+            for e in c["log"]:
+                stats["ops"][e["op"]] = stats["ops"].get(e["op"], 0) + 1
+            if c["log"] or ((c["old"]["ext"] or c["old"]["cyc"]) and c["old"]["hasRall"]):
+                stats["nontrivial"] += 1
             viols, drift = L.judge(c, real, aborted, bad)
             if drift:
                 stats["drift"] += 1
                 stats["drift_ex"] = stats["drift_ex"] or f"{L.describe(c)}: real {sorted((k, '.'.join(p)) for k, p in real)} aborted={aborted}; model {sorted((k, '.'.join(p)) for k, p in c['out'])} aborted={c['aborted']}"
-            real_of[case_key(c)] = (sorted((k, list(p)) for k, p in real), aborted)
+            st = stratum(c, real, aborted)
+            slim = {"mpriv": mpriv, "old": c["old"], "new": c["new"], "log": c["log"], "out": c["out"], "aborted": c["aborted"], "oblig": c["oblig"]}
+            if st and len(cli_cand[st]) < 2:
+                cli_cand[st].append((slim, sorted((k, list(p)) for k, p in real), aborted))
+            if len(samples) < 1 and c["log"] and real:
+                samples.append((slim, sorted((k, list(p)) for k, p in real), aborted))
             for sig, what in viols:
                 kk = json.dumps(sig, sort_keys=True)
                 if kk not in agg:
-                    files_old, files_new = L.render(c["old"], mpriv), L.render(c["new"], mpriv)
-                    agg[kk] = [0, sig, what, {"mpriv": mpriv, "old": c["old"], "new": c["new"], "log": c["log"], "files_old": files_old, "files_new": files_new,
+                    agg[kk] = [0, sig, what, {"mpriv": mpriv, "old": c["old"], "new": c["new"], "log": c["log"], "files_old": L.render(c["old"], mpriv), "files_new": L.render(c["new"], mpriv),
                                               "real": sorted((k, ".".join(p)) for k, p in real), "aborted": aborted}]
                 agg[kk][0] += 1
-    return agg, stats, real_of
+    return agg, stats, cli_cand, samples
 
 
-def replay_cases(run: Run, griffe, cases: list, procs: int) -> dict:
-    groups: dict = {}
-    for c in cases:
-        groups.setdefault(json.dumps([c["mpriv"], c["old"]], sort_keys=True), []).append(c)
-    _G.update(griffe=griffe)
-    glist = sorted(groups.values(), key=len, reverse=True)
+def replay_cases(run: Run, griffe, store: Store, procs: int):
+    """Real loader + finder on every state of the store; returns (CLI candidates per stratum, samples)."""
+    groups = sorted(store.groups.values(), key=lambda g: -len(g["cases"]))
+    raws = [sorted(g["cases"].values()) for g in groups]
+    _G.update(griffe=griffe, groups=groups, raws=raws)
+    items = [(gi, lo) for gi, r in enumerate(raws) for lo in range(0, len(r), CHUNK)]
     if procs > 1:
         with multiprocessing.get_context("fork").Pool(procs) as pool:
-            results = pool.map(_judge_group, glist, chunksize=1)
+            results = pool.map(_judge_group, items, chunksize=1)
     else:
-        results = [_judge_group(g) for g in glist]
-    real_of: dict = {}
-    tot = {"cases": 0, "drift": 0, "breakages": 0, "explains": 0, "aborted": 0}
+        results = [_judge_group(it) for it in items]
+    tot = {"cases": 0, "drift": 0, "breakages": 0, "explains": 0, "aborted": 0, "nontrivial": 0}
+    ops: dict = {}
     drift_ex = None
-    for agg, stats, ro in results:
-        real_of.update(ro)
+    cli_cand: dict = {k: [] for k in STRATA}
+    samples = []
+    for agg, stats, cand, smp in results:
         for k in tot:
             tot[k] += stats[k]
+        for k, v in stats["ops"].items():
+            ops[k] = ops.get(k, 0) + v
         drift_ex = drift_ex or stats["drift_ex"]
+        for k in STRATA:
+            cli_cand[k] += cand[k]
+        samples += smp
         for _kk, (count, sig, what, case) in sorted(agg.items()):
             run.violation(sig, what, case)
             for _ in range(count - 1):
                 run.violation(sig, what, None)
     run.replayed(tot["cases"])
     run.evaluated(tot["cases"] + tot["explains"])
+    base = len(run.nontrivial)
+    for i in range(tot["nontrivial"]):      # states are distinct by (base package, edit script) by construction of the store
+        run.nontrivial_case(base + i)
     for k in ("breakages", "explains", "aborted"):
         run.extra[k] = run.extra.get(k, 0) + tot[k]
+    run.extra["edits_replayed"] = ops
     if tot["drift"]:
         run.note(f"{tot['drift']} state(s) where the real finder differs from the model's transcription Report (model drift; the verdict comes from the reference clauses only), e.g. {drift_ex}")
-    return real_of
+    return cli_cand, samples
 
 
-def cli_sample(run: Run, cases: list, real_of: dict, count: int, rnd: random.Random):
+def cli_sample(run: Run, cli_cand: dict, count: int, rnd: random.Random):
     """Clause (v): exit code of the command-line check on generated git repositories."""
-    strata = {"silent": [], "reported": [], "reported-one": [], "aborted": [], "dangling": []}
-    for c in cases:
-        real, aborted = real_of[case_key(c)]
-        if aborted != "no":
-            strata["aborted"].append(c)
-        elif c["old"]["ext"] and c["old"]["hasRall"] and c["log"]:
-            strata["dangling"].append(c)
-        elif len(real) == 1:
-            strata["reported-one"].append(c)
-        elif real:
-            strata["reported"].append(c)
-        elif c["log"]:
-            strata["silent"].append(c)
     picked = []
-    for name in ("reported-one", "reported", "silent", "dangling", "aborted"):
-        pool = sorted(strata[name], key=case_key)
+    for name in STRATA:
+        pool = sorted(cli_cand[name], key=lambda t: json.dumps([t[0]["mpriv"], t[0]["old"], t[0]["log"]], sort_keys=True))
         rnd.shuffle(pool)
-        picked += [(name, c) for c in pool[: max(2, count // 5)]]       # >= 2: one through the CLI, one through griffe.check
-    for i, (name, c) in enumerate(picked):
-        real, aborted = real_of[case_key(c)]
+        picked += [(name, t) for t in pool[: max(2, count // 5)]]       # >= 2: one through the CLI, one through griffe.check
+    for i, (name, (c, real, aborted)) in enumerate(picked):
         mode = "cli" if i % 2 == 0 else "api"
         with scratch("c11-git-") as repo:
             res = L.cli_check(repo, c, mode)
@@ -168,11 +227,13 @@ def confirm_defect(run: Run, griffe, res, inv: str, what: str):
 
 
 def main(tier: str, replay: str | None = None):
+    import time  # noqa: PLC0415
+
     griffe = ensure_repo()
     run = Run("C11", tier)
     run.rule = ("DiffTree.tla: one state per (base package, edit script): base = defining module mod/_mod x __all__ none/full/part x re-exports in pkg/__init__ x root __all__ x dangling x cyclic re-export x K(B); "
-                "edits from the catalogue Remove/ChangeKind/ChangeValue/RemoveBase (incompatible) and AddPublic/AddOptKw/AddBase (compatible) at public and private locations. "
-                "Non-trivial = state with >= 1 edit, or identical pair whose base has a dangling/cyclic re-export; distinct by (base, edit script).")
+                "edits from the catalogue Remove/ChangeKind/ChangeValue/RemoveBase (incompatible) and AddPublic/AddOptKw/AddReturn/AddBase (compatible) at public and private locations. "
+                "Non-trivial = state with >= 1 edit, or identical pair whose base has a public dangling/cyclic re-export; distinct by (base, edit script).")
     catch = L.catches_cyclic()
     run.extra["catch_cyclic_extracted"] = catch
     rnd = random.Random(SEED)
@@ -183,75 +244,87 @@ def main(tier: str, replay: str | None = None):
         case = rec["case"]
         print(rec["what"])
         n = max(1, len(case["log"]))
-        r = tlc.must(run_tlc("DiffTree_gen.cfg", n, "all", catch, workers=8))
+        store = Store()
+        r = tlc.must(run_tlc("DiffTree_gen.cfg", n, "all", catch, workers=8, store=store))
         run.add_tlc(r)
-        hits = [c for c in r.cases if c["mpriv"] == case["mpriv"] and c["old"] == case["old"] and c["log"] == case["log"]]
-        if not hits:
+        gk = json.dumps([case["mpriv"], case["old"]], sort_keys=True)
+        lk = json.dumps(case["log"])
+        if gk not in store.groups or lk not in store.groups[gk]["cases"]:
             die("C11: the replayed case is not in TLC's enumeration")
-        real_of = replay_cases(run, griffe, hits, 1)
-        print("real:", real_of[case_key(hits[0])], " model:", hits[0]["out"], hits[0]["aborted"])
+        one = Store()
+        g = store.groups[gk]
+        one.groups[gk] = dict(g, cases={lk: g["cases"][lk]})
+        cand, _ = replay_cases(run, griffe, one, 1)
+        for name in STRATA:
+            for c, real, aborted in cand[name]:
+                print("real:", real, aborted, " model:", c["out"], c["aborted"])
         if case.get("cli"):
-            cli_sample(run, hits, real_of, 4, rnd)
+            cli_sample(run, cand, 2, rnd)
         run.finish()
 
     if tier == "quick":
         plan = {"all": ("DiffTree_check.cfg", 1, "all", 6), "small": ("DiffTree_check.cfg", 2, "small", 6)}
-        procs, n_cli = 6, 8
+        procs, n_cli = 6, 10
     else:
         plan = {"all": ("DiffTree_check.cfg", 2, "all", 10), "small": ("DiffTree_check.cfg", 3, "small", 6)}
-        procs, n_cli = 12, 40
-    jobs = {k: (lambda a=a: run_tlc(a[0], a[1], a[2], catch, workers=a[3])) for k, a in plan.items()}
+        procs, n_cli = 10, 40
+    stores = {k: Store() for k in plan}
+    jobs = {k: (lambda a=a, k=k: run_tlc(a[0], a[1], a[2], catch, workers=a[3], store=stores[k])) for k, a in plan.items()}
     jobs["defect_abort"] = lambda: run_tlc("DiffTree_defect_abort.cfg", 1, "small", catch, emit=False, workers=1, dump_trace=True)
     jobs["defect_path"] = lambda: run_tlc("DiffTree_defect_path.cfg", 1, "small", catch, emit=False, workers=1, dump_trace=True)
     with ThreadPoolExecutor(max_workers=4) as ex:
         futs = {k: ex.submit(f) for k, f in jobs.items()}
         res = {k: f.result() for k, f in futs.items()}
-    run.extra["timing"] = {"tlc_wall_s": {k: round(r.wall_s, 1) for k, r in res.items()}}
+    run.extra["timing"] = {"tlc_wall_s": {k: round(r.wall_s, 1) for k, r in res.items()}, "tlc_and_parse_s": round(time.time() - run.t0, 1)}
     for k, a in plan.items():
         if res[k].violated:
             run.note(f"TLC: the model violates {res[k].violated} ({k}); replaying the enumeration on the real code decides")
             run.add_tlc(res[k])
-            res[k] = run_tlc("DiffTree_gen.cfg", a[1], a[2], catch, workers=8)
+            stores[k] = Store()
+            res[k] = run_tlc("DiffTree_gen.cfg", a[1], a[2], catch, workers=8, store=stores[k])
         tlc.must(res[k])
         run.add_tlc(res[k])
+        if len(stores[k]) != res[k].distinct:
+            die(f"C11: TLC found {res[k].distinct} distinct states ({k}) but {len(stores[k])} distinct (base, script) cases were emitted")
     for k in ("defect_abort", "defect_path"):
         tlc.must(res[k], allow_violations=True)
         run.add_tlc(res[k])
     confirm_defect(run, griffe, res["defect_abort"], "I_NoAbort", "abort")
     confirm_defect(run, griffe, res["defect_path"], "I_ReportedAtPublicPath", "public path")
 
-    cases = {}
-    for k in plan:
-        for c in res[k].cases:
-            cases.setdefault(case_key(c), c)
-    cases = list(cases.values())
+    run.extra["timing"]["defects_confirmed_at_s"] = round(time.time() - run.t0, 1)
+    store = stores["all"]
+    store.merge(stores["small"])
+    del stores, res
     # vacuity: every edit of the catalogue, every clause antecedent and both alias failure modes are reached
-    ops = {e["op"] for c in cases for e in c["log"]}
-    if ops != {"Remove", "ChangeKind", "ChangeValue", "RemoveBase", "AddBase", "AddPublic", "AddOptKw"}:
+    ops: set = set()
+    n_oblig = n_compat = n_private = n_cyc = n_ext = 0
+    for g in store.groups.values():
+        exported = g["old"]["hasRall"]
+        for raw in g["cases"].values():
+            c = json.loads(raw)
+            ops |= {e["op"] for e in c["log"]}
+            n_oblig += sum(1 for ob in c["oblig"] if ob["public"] and not ob["masked"])
+            n_compat += bool(c["allcompat"] and c["log"])
+            n_private += sum(1 for ob in c["oblig"] if ob["op"] in ("Remove", "ChangeKind", "ChangeValue", "RemoveBase") and not ob["public"])
+            n_cyc += bool(g["old"]["cyc"] and exported)
+            n_ext += bool(g["old"]["ext"] and exported)
+    if ops != {"Remove", "ChangeKind", "ChangeValue", "RemoveBase", "AddBase", "AddPublic", "AddOptKw", "AddReturn"}:
         die(f"C11: vacuous enumeration, edits reached: {sorted(ops)}")
-    n_oblig = sum(1 for c in cases for ob in c["oblig"] if ob["public"] and not ob["masked"])
-    n_compat = sum(1 for c in cases if c["allcompat"] and c["log"])
-    n_private = sum(1 for c in cases for ob in c["oblig"] if ob["op"] in ("Remove", "ChangeKind", "ChangeValue", "RemoveBase") and not ob["public"])
-    n_cyc = sum(1 for c in cases if c["old"]["cyc"] and c["old"]["hasRall"])
-    n_ext = sum(1 for c in cases if c["old"]["ext"] and c["old"]["hasRall"])
     if not (n_oblig and n_compat and n_private and n_cyc and n_ext):
         die(f"C11: vacuous enumeration: obligations={n_oblig} compatible={n_compat} private-edits={n_private} cyclic={n_cyc} dangling={n_ext}")
-    run.extra["antecedents"] = {"public_incompatible_edits": n_oblig, "all_compatible_scripts": n_compat, "private_incompatible_edits": n_private, "cyclic_exported_states": n_cyc, "dangling_exported_states": n_ext}
+    run.extra["antecedents"] = {"base_packages": len(store.groups), "states": len(store), "public_incompatible_edits": n_oblig, "all_compatible_scripts": n_compat,
+                                "private_incompatible_edits": n_private, "cyclic_exported_states": n_cyc, "dangling_exported_states": n_ext}
 
-    import time  # noqa: PLC0415
-
+    run.extra["timing"]["vacuity_done_at_s"] = round(time.time() - run.t0, 1)
     t_py = time.time()
-    real_of = replay_cases(run, griffe, cases, procs)
+    cli_cand, samples = replay_cases(run, griffe, store, procs)
     run.extra["timing"]["real_replay_s"] = round(time.time() - t_py, 1)
-    for c in cases:
-        if c["log"] or ((c["old"]["ext"] or c["old"]["cyc"]) and c["old"]["hasRall"]):
-            run.nontrivial_case(case_key(c))
-    for c in cases[:: max(1, len(cases) // 4)]:
-        real, aborted = real_of[case_key(c)]
+    for c, real, aborted in samples[:: max(1, len(samples) // 5)]:
         run.sample({"package": L.describe(c), "model_report": [[k, ".".join(p)] for k, p in c["out"]], "model_aborted": c["aborted"], "real_report": [[k, ".".join(p)] for k, p in real], "real_aborted": aborted,
                     "obligations": [{"op": o["op"], "id": o["id"], "public": o["public"], "masked": o["masked"], "paths": [".".join(p) for p in o["paths"]]} for o in c["oblig"]]}, limit=6)
     t_py = time.time()
-    cli_sample(run, cases, real_of, n_cli, rnd)
+    cli_sample(run, cli_cand, n_cli, rnd)
     run.extra["timing"]["cli_sample_s"] = round(time.time() - t_py, 1)
     run.exhaustive = True
     run.finish()
